@@ -138,3 +138,12 @@ check("C14",
       "the window in addition.",
       TB + "Blank lines are empty lines.",
       "TLA+ spec (Source) + TLC invariants over all short files x checklines + spec-generated files replayed through iterator, importer and reopen")
+
+check("C17",
+      "AttrStore.tla models the Attributes container (list wrapping on set, view switch on get, update, delete, JSON identity), merge_attributes in two layers "
+      "(per-key sorted duplicate-free union vs copy/overwrite/extend/sorted(set) with the float tie rule) and Feature equality through the printed line. TLC checks "
+      "InvSeqs, InvSwitch, InvKeysOnce over every operation sequence of length 3 (quick) / 4 (thorough) and Merge_Alg = Merge_Decl over all menu pairs; every behaviour is "
+      "replayed on a parsed Feature and on a Feature from a database (view, stored form, JSON identity after each step); merge cases and random pairs run as dicts and "
+      "as Attributes under both switch settings with argument non-mutation; == / hash are checked on all pairs of 40 parsed lines.",
+      TB + "Non-finite numeric strings are outside numeric_sort's domain.",
+      "TLA+ state machine (MC_AttrStore on AttrStore) + TLC invariants / alg-vs-decl + spec-generated behaviours and merge cases replayed on the code")
